@@ -1959,6 +1959,106 @@ def _unroll_const_for(fn):
     ast.fix_missing_locations(fn)
 
 
+def _merge_shared_iter_loops(fn):
+    """   it = iter(X)
+          for v in it: B1          (B1 leaves the loop only by `break` in tail position; no else clause)
+          for v in it: B2          (no break, no else clause)
+    with `it` used nowhere else, is one loop over X in two phases:
+          it__second = False
+          for v in X:
+              if not it__second: B1 with `break` replaced by `it__second = True`
+              else: B2
+    (the element B1 breaks on is consumed by the first phase in both forms; when B1 never breaks the second loop has nothing left)."""
+    def tail_breaks_only(body):
+        """every Break in body (not inside a nested loop) is in tail position of body"""
+        def ok(stmts, tail):
+            for i, st in enumerate(stmts):
+                last = tail and i == len(stmts) - 1
+                if isinstance(st, ast.Break):
+                    if not last:
+                        return False
+                elif isinstance(st, ast.If):
+                    if not ok(st.body, last) or not ok(st.orelse, last):
+                        return False
+                elif isinstance(st, ast.Try):
+                    if st.finalbody and any(isinstance(y, ast.Break) for b in st.body + st.orelse + [x for h in st.handlers for x in h.body] for y in ast.walk(b)):
+                        return False
+                    # the try body is in tail position only if nothing follows it in the try statement (no else)
+                    if not ok(st.body, last and not st.orelse) or not ok(st.orelse, last):
+                        return False
+                    for h in st.handlers:
+                        if not ok(h.body, last):
+                            return False
+                elif isinstance(st, (ast.For, ast.While, ast.AsyncFor)):
+                    continue
+                elif isinstance(st, (ast.With, ast.AsyncWith)):
+                    if not ok(st.body, last):
+                        return False
+                elif any(isinstance(y, ast.Break) for y in ast.walk(st)):
+                    return False
+            return True
+        return ok(body, True)
+
+    def has_own_break(body):
+        def walk(stmts):
+            for st in stmts:
+                if isinstance(st, ast.Break):
+                    return True
+                if isinstance(st, (ast.For, ast.While, ast.AsyncFor, ast.FunctionDef, ast.AsyncFunctionDef, ast.ClassDef)):
+                    continue
+                for fld in ("body", "orelse", "finalbody"):
+                    if walk(getattr(st, fld, []) or []):
+                        return True
+                for h in getattr(st, "handlers", []) or []:
+                    if walk(h.body):
+                        return True
+            return False
+        return walk(body)
+
+    def visit(stmts):
+        for st in stmts:
+            for fld in ("body", "orelse", "finalbody"):
+                sub = getattr(st, fld, None)
+                if isinstance(sub, list) and not isinstance(st, (ast.FunctionDef, ast.AsyncFunctionDef, ast.ClassDef)):
+                    visit(sub)
+            for h in getattr(st, "handlers", []) or []:
+                visit(h.body)
+        k = 0
+        while k < len(stmts):
+            a = stmts[k]
+            if isinstance(a, ast.Assign) and len(a.targets) == 1 and isinstance(a.targets[0], ast.Name) and isinstance(a.value, ast.Call) \
+                    and isinstance(a.value.func, ast.Name) and a.value.func.id == "iter" and len(a.value.args) == 1 and not a.value.keywords:
+                it = a.targets[0].id
+                j = k + 1
+                while j < len(stmts) and isinstance(stmts[j], ast.Assign) and not any(isinstance(y, (ast.Call, ast.Yield, ast.YieldFrom, ast.Await)) or
+                                                                                       (isinstance(y, ast.Name) and y.id == it) for y in ast.walk(stmts[j])):
+                    j += 1
+                if j + 1 < len(stmts) and all(isinstance(stmts[x], ast.For) and isinstance(stmts[x].iter, ast.Name) and stmts[x].iter.id == it and not stmts[x].orelse
+                                                and isinstance(stmts[x].target, ast.Name) for x in (j, j + 1)):
+                    l1, l2 = stmts[j], stmts[j + 1]
+                    uses = sum(1 for y in ast.walk(fn) if isinstance(y, ast.Name) and y.id == it)
+                    if uses == 3 and l1.target.id == l2.target.id and tail_breaks_only(l1.body) and not has_own_break(l2.body):
+                        flag = "%s__second" % it
+
+                        class B(ast.NodeTransformer):
+                            def visit_For(self, node):
+                                return node
+                            visit_While = visit_AsyncFor = visit_FunctionDef = visit_AsyncFunctionDef = visit_For
+
+                            def visit_Break(self, node):
+                                return ast.copy_location(ast.Assign(targets=[ast.Name(id=flag, ctx=ast.Store())], value=ast.Constant(value=True)), node)
+                        b1 = [B().visit(x) for x in l1.body]
+                        init = ast.copy_location(ast.Assign(targets=[ast.Name(id=flag, ctx=ast.Store())], value=ast.Constant(value=False)), a)
+                        merged = ast.copy_location(ast.For(target=l1.target, iter=a.value.args[0], orelse=[], type_comment=None, body=[
+                            ast.copy_location(ast.If(test=ast.UnaryOp(op=ast.Not(), operand=ast.Name(id=flag, ctx=ast.Load())), body=b1, orelse=l2.body), l1)]), l1)
+                        ast.fix_missing_locations(init)
+                        ast.fix_missing_locations(merged)
+                        stmts[k:j + 2] = [init] + stmts[k + 1:j] + [merged]
+                        continue
+            k += 1
+    visit(fn.body)
+
+
 def _for_over_temp(fn):
     """   t = a.b.c                    A local that names an attribute chain (no call) for the loop right after it, and is mentioned
           for x in t: ...   ->  for x in a.b.c: ...     nowhere else, is the chain itself: the iterable is evaluated once, at the same point."""
@@ -2071,6 +2171,7 @@ def normalize_module(tree):
     for fn in [n for n in ast.walk(tree) if isinstance(n, (ast.FunctionDef, ast.AsyncFunctionDef))]:
         _lower_ifexp(fn)
     for fn in [n for n in ast.walk(tree) if isinstance(n, (ast.FunctionDef, ast.AsyncFunctionDef))]:
+        _merge_shared_iter_loops(fn)
         _fold_bool_chain(fn)
         _merge_isinstance_or(fn)
         _unroll_const_for(fn)
